@@ -4,6 +4,7 @@ import FP.Proofs.MFD
 import FP.Proofs.DecompExample
 import FP.Proofs.FlowDecompExists
 import FP.Proofs.DecompManyPaths
+import FP.Proofs.DecompConstraints
 /-!
 # C03 — MinFlowDecomp (DAG) finds a decomposition with the fewest paths
 
@@ -95,25 +96,25 @@ theorem lb_antichain_valid (inp : FlowInput) (k : Nat) (P : Nat → List Node) (
     (hact : ∀ e ∈ A, e ∈ inp.activeEdges) (hpos : ∀ e ∈ A, 0 < inp.f e) : A.length ≤ k :=
   FP.lb_antichain_valid_proof inp k P w hd A hA hact hpos
 
-/-- the model of `get_lowerbound_k` returns a value below every `m` that bounds all its ingredients -/
+/-- the model of `get_lowerbound_k` returns a value below every `m` that bounds all its ingredients
+(the generating-set ingredient only counts when the ignore list is empty, as in the code) -/
 theorem lowerboundK_valid (x : LBIn) (m lb : Nat) (hopt : x.optLb.getD 1 ≤ m)
     (hlog : distinctInt x.flows ≤ 2 ^ m) (hwidth : x.width ≤ m)
-    (hmgs : x.useMgs = true → ∀ s, x.mgs = some s → s ≤ m)
+    (hmgs : x.ignoreEmpty = true → x.useMgs = true → ∀ s, x.mgs = some s → s ≤ m)
     (hscan : x.useScan = true → ∀ s, x.scan = some s → s ≤ m)
     (h : lowerboundK x = .value lb) : lb ≤ m :=
   FP.lowerboundK_valid_proof x m lb hopt hlog hwidth hmgs hscan h
 
-/-- **C03 over the model of `solve`.** True minimum `m ≤ |E|`, valid lower-bound ingredients, a solver
-that always finishes: the modelled `MinFlowDecomp.solve` returns `m`. -/
+/-- **C03 over the model of `solve`.** True minimum `m ≤ |E| + #constraints`, valid lower-bound
+ingredients, a solver that always finishes: the modelled `MinFlowDecomp.solve` returns `m`. -/
 theorem mfd_solve_returns_min (inp : FlowInput) (h : BaseWF inp.base) (hac : Acyclic inp.base)
-    (hcfg : PlainCfg inp) (σ : Nat → Status) (hd : Decisive inp σ) (x : LBIn) (numEdges m : Nat)
-    (hmin : IsMinDecomp inp m) (hm : m ≤ numEdges)
+    (hcfg : PlainCfg inp) (σ : Nat → Status) (hd : Decisive inp σ) (x : LBIn) (numEdges numCons m : Nat)
+    (hmin : IsMinDecomp inp m) (hm : m ≤ numEdges + numCons)
     (hopt : x.optLb.getD 1 ≤ m) (hlog : distinctInt x.flows ≤ 2 ^ m) (hwidth : x.width ≤ m)
-    (hmgs : x.useMgs = true → ∀ s, x.mgs = some s → s ≤ m)
-    (hscan : x.useScan = true → ∀ s, x.scan = some s → s ≤ m)
-    (hflows : distinctInt x.flows ≠ 0) :
-    ∃ o, MFD.solve x numEdges σ = some o ∧ o.solved = some m :=
-  FP.mfd_solve_returns_min_proof inp h hac hcfg σ hd x numEdges m hmin hm hopt hlog hwidth hmgs hscan hflows
+    (hmgs : x.ignoreEmpty = true → x.useMgs = true → ∀ s, x.mgs = some s → s ≤ m)
+    (hscan : x.useScan = true → ∀ s, x.scan = some s → s ≤ m) :
+    (MFD.solve x numEdges numCons σ).solved = some m :=
+  FP.mfd_solve_returns_min_proof inp h hac hcfg σ hd x numEdges numCons m hmin hm hopt hlog hwidth hmgs hscan
 
 /-- **flow decomposition theorem on s-t DAGs.** A non-negative flow `φ` on a well-formed s-t DAG of the
 shape `augment` produces (`Thin`), conserved at every inner node, is the sum of at most
@@ -137,21 +138,34 @@ theorem mfd_total (inp : FlowInput) (h : BaseWF inp.base) (hac : Acyclic inp.bas
     ∃ m, m ≤ inp.base.edges.length ∧ IsMinDecomp inp m :=
   FP.mfd_total_proof inp h hac hci hnocons hint
 
-/-- **C03 end to end over the model.** Conserving non-negative flow, no constraints, lower-bound
-ingredients that are valid for the minimum, a solver that always finishes: the modelled
-`MinFlowDecomp.solve` succeeds and returns the minimum number of paths. -/
+/-- **existence with subpath constraints.** If moreover every subpath constraint lies on some
+source-to-sink path (`Coverable` — necessary for any decomposition to exist), the minimum exists and is at
+most `|E| + #constraints`: a constraint-free decomposition plus one weight-0 path per constraint. -/
+theorem mfd_total_constraints (inp : FlowInput) (h : BaseWF inp.base) (hac : Acyclic inp.base)
+    (hci : ConservingInput inp) (hcov : Coverable inp)
+    (hint : inp.weightInt = true → ∀ e ∈ inp.base.edges, ∃ z : Int, inp.f e = z) :
+    ∃ m, m ≤ inp.base.edges.length + inp.cfg.constraints.length ∧ IsMinDecomp inp m :=
+  FP.mfd_total_constraints_proof inp h hac hci hcov hint
+
+theorem coverable_necessary (inp : FlowInput) (k : Nat) (h : HasDecomp inp k) : Coverable inp :=
+  FP.coverable_of_hasDecomp inp k h
+
+/-- **C03 end to end over the model, subpath constraints included.** Conserving non-negative flow, subpath
+constraints (coverage 1) each on some source-to-sink path, lower-bound ingredients that are valid for the
+minimum, a solver that always finishes: the modelled `MinFlowDecomp.solve` — search over
+`range(lb, |E| + #constraints + 1)` — succeeds and returns the minimum number of paths. -/
 theorem mfd_solve_succeeds (inp : FlowInput) (h : BaseWF inp.base) (hac : Acyclic inp.base)
-    (hcfg : PlainCfg inp) (hci : ConservingInput inp) (hnocons : inp.cfg.constraints = [])
+    (hcfg : PlainCfg inp) (hci : ConservingInput inp) (hcov : Coverable inp)
     (hint : inp.weightInt = true → ∀ e ∈ inp.base.edges, ∃ z : Int, inp.f e = z)
     (σ : Nat → Status) (hd : Decisive inp σ) (x : LBIn)
     (hvalid : ∀ m, IsMinDecomp inp m → x.optLb.getD 1 ≤ m ∧ distinctInt x.flows ≤ 2 ^ m ∧ x.width ≤ m ∧
-      (x.useMgs = true → ∀ s, x.mgs = some s → s ≤ m) ∧ (x.useScan = true → ∀ s, x.scan = some s → s ≤ m))
-    (hflows : distinctInt x.flows ≠ 0) :
-    ∃ m o, MFD.solve x inp.base.edges.length σ = some o ∧ o.solved = some m ∧ IsMinDecomp inp m := by
-  obtain ⟨m, hm, hmin⟩ := mfd_total inp h hac hci hnocons hint
+      (x.ignoreEmpty = true → x.useMgs = true → ∀ s, x.mgs = some s → s ≤ m) ∧
+      (x.useScan = true → ∀ s, x.scan = some s → s ≤ m)) :
+    ∃ m, (MFD.solve x inp.base.edges.length inp.cfg.constraints.length σ).solved = some m ∧
+      IsMinDecomp inp m := by
+  obtain ⟨m, hm, hmin⟩ := mfd_total_constraints inp h hac hci hcov hint
   obtain ⟨h1, h2, h3, h4, h5⟩ := hvalid m hmin
-  obtain ⟨o, ho, hs⟩ := mfd_solve_returns_min inp h hac hcfg σ hd x _ m hmin hm h1 h2 h3 h4 h5 hflows
-  exact ⟨m, o, ho, hs, hmin⟩
+  exact ⟨m, mfd_solve_returns_min inp h hac hcfg σ hd x _ _ m hmin hm h1 h2 h3 h4 h5, hmin⟩
 
 /-- a further valid lower bound (not used by the code): subpath constraints that pairwise leave a common
 node by different edges need one path each -/
@@ -161,15 +175,24 @@ theorem lb_constraints_valid (inp : FlowInput) (h : BaseWF inp.base) (hac : Acyc
     (hinc : ∀ c1 ∈ C, ∀ c2 ∈ C, c1 ≠ c2 → DecompManyPaths.Incompat c1 c2 = true) : C.length ≤ k :=
   DecompManyPaths.lb_constraints inp h hac k P w hd C hC hnd hinc
 
-/-- **the code falsifies "solve() succeeds" for subpath constraints.** Concrete input (complete DAG on 6
-nodes without three edges: 12 edges, 13 source-to-sink paths, each a subpath constraint, one unit of flow
-per path): a decomposition exists, the minimum is 13 paths, and the modelled search over
-`range(lo, |E| + 1)` ends without an answer for every lower bound and every truthful solver. Replayed on
-the real code by `harness/props/c03.py: many_paths_instance` (finding C03-search-range-ignores-constraints). -/
+/-- **the range before fix e0ac661 falsified "solve() succeeds" for subpath constraints.** Concrete input
+(complete DAG on 6 nodes without three edges: 12 edges, 13 source-to-sink paths, each a subpath constraint,
+one unit of flow per path): a decomposition exists, the minimum is 13 paths, and a search over
+`range(lo, |E| + 1)` ends without an answer for every lower bound and every truthful solver. -/
 theorem search_range_too_small_witness (σ : Nat → Status) (hf : Faithful DecompManyPaths.inp σ) (lo : Nat) :
     DecompManyPaths.base.edges.length = 12 ∧ IsMinDecomp DecompManyPaths.inp 13 ∧
-      (stopSearch σ lo (searchHi DecompManyPaths.base.edges.length)).solved = none :=
-  DecompManyPaths.range_too_small σ hf lo
+      (stopSearch σ lo (searchHiPre DecompManyPaths.base.edges.length)).solved = none :=
+  DecompManyPaths.range_too_small_pre σ hf lo
+
+/-- **regression for fix e0ac661.** The same input is inside the current range
+`range(lo, |E| + #constraints + 1) = range(lo, 26)`: every finishing solver makes the search return 13.
+Replayed on the real code by `harness/props/c03.py: many_paths_instance`. -/
+theorem search_range_regression (σ : Nat → Status) (hd : Decisive DecompManyPaths.inp σ) (lo : Nat)
+    (hlo : lo ≤ 13) :
+    searchHi DecompManyPaths.base.edges.length DecompManyPaths.inp.cfg.constraints.length = 26 ∧
+      (stopSearch σ lo (searchHi DecompManyPaths.base.edges.length
+        DecompManyPaths.inp.cfg.constraints.length)).solved = some 13 :=
+  DecompManyPaths.range_now_sufficient σ hd lo hlo
 
 /-! ### non-vacuity: the diamond with flows 3/2, integer weights, one subpath constraint -/
 
@@ -207,17 +230,50 @@ example : ∃ m, m ≤ 4 ∧ IsMinDecomp diamond0 m :=
       · exact ⟨3, by decide +kernel⟩
       · exact ⟨2, by decide +kernel⟩)
 
+/-- the diamond with its subpath constraint satisfies the hypotheses of `mfd_total_constraints` -/
+theorem diamond_conserving : ConservingInput DecompExample.inp where
+  noStarts := rfl
+  noEnds := rfl
+  nonneg := by decide +kernel
+  cons := by decide +kernel
+
+theorem diamond_coverable : Coverable DecompExample.inp :=
+  coverable_necessary _ 2 DecompExample.hasDecomp2
+
+example : ∃ m, m ≤ 4 + 1 ∧ IsMinDecomp DecompExample.inp m :=
+  mfd_total_constraints DecompExample.inp DecompExample.base_wf DecompExample.base_acyclic
+    diamond_conserving diamond_coverable
+    (fun _ e he => by
+      have : e ∈ [(("a", "b") : Edge), ("a", "c"), ("b", "d"), ("c", "d")] := he
+      simp only [List.mem_cons, List.not_mem_nil, or_false] at this
+      rcases this with rfl | rfl | rfl | rfl
+      · exact ⟨3, by decide +kernel⟩
+      · exact ⟨2, by decide +kernel⟩
+      · exact ⟨3, by decide +kernel⟩
+      · exact ⟨2, by decide +kernel⟩)
+
 /-- the model's lower bound on the diamond: two distinct values (log term 1), width 2 -/
 example : lowerboundK { flows := [3, 2, 3, 2], width := 2 } = .value 2 := by decide +kernel
-example : lowerboundK { flows := [], width := 0 } = .valueError := by decide +kernel
-/-- an unsolved `MinGenSet` leaves the bound as it is (since fix 50cb8a9) … -/
+/-- no value at all (everything ignored / no attribute): the log term is skipped (fix 01f9777) … -/
+example : lowerboundK { flows := [], width := 0, ignoreEmpty := false } = .value 1 := by decide +kernel
+/-- … before the fix `math.log2(0)` raised -/
+example : lowerboundKPre { flows := [], width := 0 } = .valueError := by decide +kernel
+/-- an unsolved `MinGenSet` leaves the bound as it is (fix 50cb8a9) … -/
 example : lowerboundK { flows := [1, 2, 4], width := 2, useMgs := true, mgs := none } = .value 2 := by
   decide +kernel
 /-- … before the fix it terminated the interpreter: no answer at all although the minimum exists -/
 theorem mingenset_exit_witness :
     lowerboundKPre { flows := [3, 1, 2, 2], width := 2, useMgs := true, mgs := none } = .exit := by
   decide +kernel
-example : (MFD.solve { flows := [3, 2, 3, 2], width := 2 } 4
-    (fun k => if k < 2 then .infeasible else .optimal)).map (·.solved) = some (some 2) := by decide +kernel
+/-- s→a→t with flow 5 and ignored edges carrying 9, 2, 3 (finding C03-lowerbound-counts-ignored-values):
+before fix 01f9777 all five values were counted (bound 2 > minimum 1), now only the non-ignored ones -/
+theorem ignored_values_witness :
+    lowerboundKPre { flows := [5, 5, 9, 2, 3], width := 1 } = .value 2 ∧
+    lowerboundK { flows := [5, 5], width := 1, ignoreEmpty := false } = .value 1 := by decide +kernel
+/-- the generating-set ingredient is not used when something is ignored -/
+example : lowerboundK { flows := [5, 5], width := 1, ignoreEmpty := false, useMgs := true, mgs := some 4 }
+    = .value 1 := by decide +kernel
+example : (MFD.solve { flows := [3, 2, 3, 2], width := 2 } 4 1
+    (fun k => if k < 2 then .infeasible else .optimal)).solved = some 2 := by decide +kernel
 
 end FP.Props.C03
